@@ -165,7 +165,18 @@ func runRelay(c *Case, r *Run, script []relayEv, gapMode int, window int, chunk 
 
 	returned := make(chan struct{})
 	var relayErr error
-	c.Go(func() { close(returned) }, func() { relayErr = copyLoop(a1, b1) })
+	// what the relay is handed is a bare net.Conn or, like a *net.TCPConn,
+	// one that can also be half-closed
+	var ra, rb net.Conn = a1, b1
+	switch seed % 3 {
+	case 0:
+		ra = halfClosable{a1}
+		r.Count("relay_side_with_CloseWrite", 1)
+	case 1:
+		rb = halfClosable{b1}
+		r.Count("relay_side_with_CloseWrite", 1)
+	}
+	c.Go(func() { close(returned) }, func() { relayErr = copyLoop(ra, rb) })
 
 	firstEnd := ""       // which side ended first
 	otherHealthy := true // was the other side healthy at that moment
@@ -395,6 +406,12 @@ func runRelay(c *Case, r *Run, script []relayEv, gapMode int, window int, chunk 
 	<-returned
 	wg.Wait()
 }
+
+// halfClosable gives a wire end the two extra methods of a *net.TCPConn.
+type halfClosable struct{ *Conn }
+
+func (h halfClosable) CloseWrite() error { h.Conn.Out().CloseWrite(); return nil }
+func (h halfClosable) CloseRead() error  { return nil }
 
 // stalledSink reports whether the side that would have to receive the bytes
 // of the side that ended (the other side) had stopped reading.
